@@ -305,6 +305,7 @@ class Evaluator:
     def __init__(self, model, point, missing=None, strict=False):
         self.model = model
         self.strict = strict  # evaluate both branches of every conditional (as numpy.where does)
+        self.forced = {}      # id(cond node) -> bool: decide this conditional that way (strict analysis)
         self.assigns = X.assign_map(model)
         self.env = {}
         def safe_leaf(v):
@@ -383,6 +384,8 @@ class Evaluator:
                 return mod(self.eval(e[2]), self.eval(e[3]))
             return _func(e[1], self.eval(e[2]))
         if tag == "cond":
+            if id(e) in self.forced:
+                return self.eval(e[2] if self.forced[id(e)] else e[3])
             c = self.evalb(e[1])
             self.branches.append(c)
             if self.strict:
@@ -439,6 +442,30 @@ def strictly_undefined(model, point, missing=None) -> bool:
         kind, _ = ev.status(a["name"])
         if kind not in ("ok", "ambiguous", "ill-conditioned"):
             return True
+    # ... and whichever way the conditionals inside one expression are decided: sympy distributes
+    # operations over the branches (Conditional(c, -3, x)**2.2 -> where(c, (-3)**2.2, x**2.2)), so a
+    # constant branch value can meet an operation it is not defined for although it is never selected
+    import itertools
+
+    for a in model["assigns"]:
+        conds = [n for n in X.walk(a["expr"]) if n[0] == "cond"]
+        if not conds:
+            continue
+        if len(conds) <= 6:
+            forcings = [{id(n): c for n, c in zip(conds, combo)} for combo in itertools.product((True, False), repeat=len(conds))]
+        else:  # one conditional at a time
+            forcings = [{id(n): c} for n in conds[:40] for c in (True, False)]
+        for forced in forcings:
+            ev2 = Evaluator(model, point, missing, strict=True)
+            ev2.cache = dict(ev.cache)
+            ev2.cache.pop(a["name"], None)
+            ev2.forced = forced
+            try:
+                ev2.eval(a["expr"])
+            except (Ambiguous, IllConditioned):
+                continue
+            except RefError:
+                return True
     return False
 
 
